@@ -124,16 +124,17 @@ C12Put(pre, k, v, pr, post, silentGhostDiscard) ==
       had == MapHas(R, k)
       old == MapGet(R, k)
       Exp(minus) == (R \ minus) \cup {<<k, v>>}
-      \* ARC: ghosts may be discarded silently.  The victim of this very put becomes a ghost and may be
-      \* trimmed again in the same call (size 1: the ghost lists are trimmed with lengths measured
-      \* before the victim arrived), so at most ONE entry that was resident may be among the lost
-      \* ones, and only when the cache was full.
+      \* ARC: ghosts may be discarded silently.  In a cache of size 1 the victim of a put of a NEW key
+      \* becomes a ghost and is trimmed again in the same call (the ghost lists have capacity 1 and are
+      \* trimmed with lengths measured before the victim arrived); only then may ONE entry that was
+      \* resident be among the lost ones.  (For size >= 2 the trimmed ghost is always an old one, and
+      \* on a ghost hit - Update - nothing is trimmed: a resident lost there is a real loss.)
       Same(exp) == IF silentGhostDiscard
                    THEN LET lost == exp \ R2
                             lostRes == lost \cap ResMap(pre)
                         IN /\ R2 \subseteq exp /\ <<k, v>> \in R2
                            /\ (lost \ lostRes) \subseteq GhostMap(pre)
-                           /\ Cardinality(lostRes) <= (IF Len(ResEntries(pre)) >= pre.cap THEN 1 ELSE 0)
+                           /\ Cardinality(lostRes) <= (IF pr.t = "Put" /\ pre.cap = 1 /\ Len(ResEntries(pre)) >= pre.cap THEN 1 ELSE 0)
                    ELSE R2 = exp
   IN CASE pr.t = "Put" ->
             /\ ~had /\ Same(Exp({})) /\ <<k, v>> \in ResMap(post)
